@@ -148,6 +148,73 @@ def w_fixed_point(item, seed=0):
     return t
 
 
+def w_spellings(item, seed=0):
+    """Legal alternative spellings of the same request (image containers / dtypes / layouts, angle and parameter
+    spellings — all accepted by the unchanged tree) must give the canonical geometry and weights."""
+    from quantem.core.datastructures.dataset2d import Dataset2d
+    from quantem.core.datastructures.dataset3d import Dataset3d
+
+    shape, ang, knots, pad = tuple(item[0]), float(item[1]), int(item[2]), float(item[3])
+    t = Tally()
+    DC = _dc()
+    ims = [make_image(shape, seed, k) for k in range(2)]
+    angles = [ang, (ang + 90.0) % 360.0]
+
+    def ro(a):
+        a = a.copy()
+        a.flags.writeable = False
+        return a
+
+    pp = dict(pad_fraction=pad, number_knots=knots, kde_sigma=0.5, pad_value="mean")
+    variants = {
+        "canonical": lambda: DC.from_data([i.copy() for i in ims], list(angles)).preprocess(**pp),
+        "float32 images": lambda: DC.from_data([i.astype(np.float32) for i in ims], list(angles)).preprocess(**pp),
+        "Fortran-ordered images": lambda: DC.from_data([np.asfortranarray(i) for i in ims], list(angles)).preprocess(**pp),
+        "read-only images": lambda: DC.from_data([ro(i) for i in ims], list(angles)).preprocess(**pp),
+        "3-D array": lambda: DC.from_data(np.stack(ims), list(angles)).preprocess(**pp),
+        "list of Dataset2d": lambda: DC.from_data([Dataset2d.from_array(i.copy()) for i in ims], list(angles)).preprocess(**pp),
+        "Dataset3d": lambda: DC.from_data(Dataset3d.from_array(np.stack(ims)), list(angles)).preprocess(**pp),
+        "angles as ndarray": lambda: DC.from_data([i.copy() for i in ims], np.array(angles)).preprocess(**pp),
+        "angles as tuple": lambda: DC.from_data([i.copy() for i in ims], tuple(angles)).preprocess(**pp),
+        "angles as float32 array": lambda: DC.from_data([i.copy() for i in ims], np.array(angles, dtype=np.float32)).preprocess(**pp),
+        "angles + 360": lambda: DC.from_data([i.copy() for i in ims], [a + 360.0 for a in angles]).preprocess(**pp),
+        "angles - 360": lambda: DC.from_data([i.copy() for i in ims], [a - 360.0 for a in angles]).preprocess(**pp),
+        "number_knots=np.int64": lambda: DC.from_data([i.copy() for i in ims], list(angles)).preprocess(pad_fraction=pad, number_knots=np.int64(knots), kde_sigma=0.5, pad_value="mean"),
+        "pad_fraction=np.float64, kde_sigma=np.float32": lambda: DC.from_data([i.copy() for i in ims], list(angles)).preprocess(pad_fraction=np.float64(pad), number_knots=knots, kde_sigma=np.float32(0.5), pad_value="mean"),
+        "positional arguments": lambda: DC.from_data([i.copy() for i in ims], list(angles)).preprocess(pad, "mean", 0.5, knots),
+        "pad_value as float": lambda: DC.from_data([i.copy() for i in ims], list(angles)).preprocess(pad_fraction=pad, number_knots=knots, kde_sigma=0.5, pad_value=0.3),
+        "pad_value as list": lambda: DC.from_data([i.copy() for i in ims], list(angles)).preprocess(pad_fraction=pad, number_knots=knots, kde_sigma=0.5, pad_value=[0.1, 0.2]),
+        "pad_value median": lambda: DC.from_data([i.copy() for i in ims], list(angles)).preprocess(pad_fraction=pad, number_knots=knots, kde_sigma=0.5, pad_value="median"),
+    }
+    if all(float(a).is_integer() for a in angles):
+        variants["angles as ints"] = lambda: DC.from_data([i.copy() for i in ims], [int(a) for a in angles]).preprocess(**pp)
+    base = None
+    for name, fn in variants.items():
+        case = {"part": "spelling", "shape": list(shape), "angle": ang, "knots": knots, "pad": pad, "variant": name}
+        t.case(key=case, nontrivial=name != "canonical")
+        try:
+            with warnings.catch_warnings():
+                warnings.simplefilter("ignore")
+                dc = fn()
+            canvas = tuple(int(v) for v in dc.shape[1:])
+            g = []
+            for i in range(2):
+                xa, ya = dc.interpolator[i].transform_coordinates(dc.knots[i])
+                g.append((np.asarray(xa, float), np.asarray(ya, float), float(np.asarray(dc.weights_warped.array[i], dtype=np.float64).sum())))
+        except Exception as ex:
+            t.fail({"relation": "legal_spelling_accepted", "variant": name}, case, f"{name}: raised {type(ex).__name__}: {str(ex)[:150]} (the unchanged tree accepts this spelling)")
+            continue
+        if base is None:
+            base = (canvas, g)
+            continue
+        tol = 1e-5 if "float32 array" in name else TOL_GEOM  # float32 angles carry 2.4e-7 px
+        e = max(max(float(np.abs(a[0] - b[0]).max()), float(np.abs(a[1] - b[1]).max())) if a[0].shape == b[0].shape else np.inf for a, b in zip(g, base[1]))
+        ew = max(abs(a[2] - b[2]) / (shape[0] * shape[1]) for a, b in zip(g, base[1]))
+        if canvas != base[0] or e > tol or ew > TOL_WEIGHT:
+            t.fail({"relation": "legal_spelling_gives_canonical_result", "variant": name}, case, f"{name}: shape={shape} angle={ang} knots={knots} pad={pad}: canvas {canvas} vs {base[0]}, coordinates differ by {e:.3g} px, weight sums by {ew:.3g} from the canonical spelling")
+    return t
+
+
 REPRE = [(0.0, 0.5, 1), (30.0, 0.5, 1), (90.0, 0.5, 2), (200.0, 0.25, 1), (45.0, 0.5, 3), (135.0, 1.0, 1), (30.0, 0.5, 4)]
 
 
@@ -219,6 +286,8 @@ def run(ctx):
     fp_knots = [1, 2] if q else [1, 2, 3, 4]
     ctx.coverage["bounds"]["fixed_point"] = {"angles": fp_angles, "align_upsample": fp_up, "knots": fp_knots}
     ctx.pmap(w_fixed_point, list(itertools.product(shapes, stacks, fp_angles, [0.5], fp_knots, fp_up)), label="translation fixed point", seed=ctx.seed)
+    sp_items = [((7, 9), 30.0, 1, 0.5), ((6, 10), 90.0, 2, 0.25)] if q else [(sh, a, k, pd) for sh in [(7, 9), (6, 10), (8, 8)] for a in (0.0, 30.0, 90.0, 200.0) for k in (1, 2, 4) for pd in (0.25, 1.5)]
+    ctx.pmap(w_spellings, sp_items, chunk=1, label="alternative spellings / containers / layouts", seed=ctx.seed)
     rp_shapes = [(7, 9)] if q else [(7, 9), (8, 8), (10, 6)]
     ctx.coverage["bounds"]["repreprocess"] = {"configs": [list(c) for c in REPRE], "depth": 2 if q else 3, "shapes": [list(x) for x in rp_shapes]}
     ctx.pmap(w_repreprocess, [(sh, a) for sh in rp_shapes for a in range(len(REPRE))], chunk=1, label="re-preprocess histories on one object", seed=ctx.seed, depth=2 if q else 3)
@@ -227,7 +296,10 @@ def run(ctx):
 
 
 def replay(ctx, case):
-    if case.get("part") == "repreprocess":
+    if case.get("part") == "spelling":
+        t = w_spellings((case["shape"], case["angle"], case["knots"], case["pad"]), seed=ctx.seed)
+        t.fails = [f for f in t.fails if f["case"].get("variant") == case["variant"]]
+    elif case.get("part") == "repreprocess":
         idx = [REPRE.index(tuple(c)) for c in case["history"]]
         t = w_repreprocess((case["shape"], idx[0]), seed=ctx.seed, depth=len(idx))
         t.fails = [f for f in t.fails if f["case"].get("history") == case["history"]]
